@@ -289,7 +289,10 @@ def msg_builder(kind, ref, mid, new_id=None, ro_id='RO'):
         if kind == 'roReadyToAir':
             return M.ready_to_air(**kw)
         if kind == 'roMetadataReplace':
-            return M.metadata_replace([T('roSlug', 'changed')], **kw)
+            return M.metadata_replace([T('roSlug', 'changed'), T('roChannel', mid)], **kw)
+        if kind == 'roReplace':
+            return M.ro_replace([T('roSlug', 'replaced'), B.story(ref, slug='kept', timing=B.timing_block(dur='3'),
+                                                                 body=[B.item('I0'), T('p', 'r')])], **kw)
         raise ValueError(kind)
     return lambda: B.raw(build)
 
@@ -394,7 +397,8 @@ def accept_cell(P, A):
     n_rc, n_rd, n_other = P['n_rc'], P['n_rd'], P['n_other']
     allow = P['allow']
     src = P.get('source', 'string')
-    kinds = ['roCreate'] * n_rc + ['roStoryMove', 'roMetadataReplace'][:n_other] + ['roDelete'] * n_rd
+    others = ['roStoryMove', 'roMetadataReplace'] if not P.get('with_replace') else ['roReplace', 'roStoryMove']
+    kinds = ['roCreate'] * n_rc + others[:n_other] + ['roDelete'] * n_rd
     order = P.get('order') or list(range(len(kinds)))
     kinds = [kinds[i] for i in order]
     n = len(kinds)
@@ -612,8 +616,11 @@ def sources_cell(P, A):
 # ---------------------------------------------------------------------------------------
 
 FILE_KINDS = ['roCreate', 'roCreate-completed', 'roStoryMove', 'roDelete', 'roStorySend', 'roElementAction',
-              'roReplace', 'roMetadataReplace', 'unknown-xml', 'malformed', 'missing', 'directory']
-VALID_CLASS = {'roCreate': 'RunningOrder', 'roCreate-completed': 'RunningOrder (completed)', 'roStoryMove': 'StoryMove',
+              'roReplace', 'roMetadataReplace', 'unknown-xml', 'malformed', 'missing', 'directory',
+              'latin1-roStoryDelete', 'binary-junk', 'roStoryMove-to-bottom']
+LATIN1_DOC = ('<?xml version="1.0" encoding="ISO-8859-1"?>\n<mos><messageID>%s</messageID><roStoryDelete>'
+              '<roID>RO</roID><storyID>caf\u00e9</storyID></roStoryDelete></mos>')
+VALID_CLASS = {'latin1-roStoryDelete': 'StoryDelete', 'roStoryMove-to-bottom': 'StoryMove','roCreate': 'RunningOrder', 'roCreate-completed': 'RunningOrder (completed)', 'roStoryMove': 'StoryMove',
                'roDelete': 'RunningOrderEnd', 'roStorySend': 'StorySend', 'roElementAction': 'EAStorySwap',
                'roReplace': 'RunningOrderReplace', 'roMetadataReplace': 'MetaDataReplace'}
 
@@ -623,6 +630,18 @@ def file_of_kind(W, kind, i, mid=None):
     name = 'f%d_%s.mos.xml' % (i, kind)
     if kind in ('unknown-xml', 'malformed', 'missing', 'directory'):
         return W.bad_file(kind, name=name)
+    if kind in ('latin1-roStoryDelete', 'binary-junk'):
+        # bytes that are not UTF-8: a legal document in a declared encoding, and junk that is merely invalid
+        if W.replay:
+            path = os.path.join(W._tmpdir(), name)
+            with open(path, 'wb') as f:
+                f.write((LATIN1_DOC % mid).encode('iso-8859-1') if kind.startswith('latin1') else b'\xff\xfe\x00junk\x80\x81')
+            return path
+        if kind == 'binary-junk':
+            return W.bad_file('malformed', name=name)
+        return W.doc(msg_builder('roStoryDelete', 'caf\u00e9', mid), kind='file', name=name)
+    if kind == 'roStoryMove-to-bottom':
+        return W.doc(lambda: B.raw(lambda: M.story_move('a', None, msg_id=mid)), kind='file', name=name)
     if kind == 'roCreate':
         b = ro_builder(['a', 'b', 'c'], mid)
     elif kind == 'roCreate-completed':
@@ -739,6 +758,9 @@ SCENARIOS = {
     'missing-file': ['roCreate', 'missing', 'roDelete'],
     'unknown-xml': ['roCreate', 'unknown-xml', 'roDelete'],
     'reversed': ['roDelete@30', 'roStorySend@20', 'roCreate@5'],
+    'same-path-twice': ['roCreate', 'roStoryAppend', '=1', 'roDelete'],
+    'roCreate-path-twice': ['roCreate', '=0', 'roDelete'],
+    'latin1-file': ['roCreate', 'latin1-roStoryDelete', 'roDelete'],
 }
 
 
@@ -752,6 +774,9 @@ def cli_merge_cell(P, A):
     with World() as W:
         paths = []
         for i, spec in enumerate(scen):
+            if spec.startswith('='):
+                paths.append(paths[int(spec[1:])])      # the very same path listed again
+                continue
             kind, _, mid = spec.partition('@')
             if kind.endswith('!'):
                 paths.append(W.doc(msg_builder(kind[:-1], 'zz-unknown', mid or str(10 + i)), kind='file'))
